@@ -120,8 +120,68 @@ def fan_dag(rng: random.Random, max_nodes: int = 10):
 HOSTILE = ["a b", "a/b", "é", "0", "None", "parents", "x,y", "a>b", "nan", "näme", "A", "a", "(", "'q'", "\\", "名"]
 
 
+JOINERS = ["-", "_", ">", "/", ",", " ", "->", "|", ":", ".", ""]
+
+
+def concat_names(rng: random.Random, n: int):
+    """distinct names that collide under string concatenation: every name is 1..3 short tokens joined by one
+    joiner J, so that p1+J+c1 == p2+J+c2 for different pairs (a-b + c  vs  a + b-c); defeats any key built by
+    joining two names with J (and, for J == "", by plain concatenation)"""
+    j = rng.choice(JOINERS)
+    toks = rng.sample(["a", "b", "c", "ab", "x", "1", "10", "0"], 4)
+    pool, seen = [], set()
+    for k in (1, 2, 3):
+        for combo in itertools.product(toks, repeat=k):
+            nm = j.join(combo)
+            if nm and nm not in seen:
+                seen.add(nm)
+                pool.append(nm)
+    # prefer short names (more collisions), keep it random
+    head = pool[: 4 + 16]
+    rng.shuffle(head)
+    out = head[:n]
+    i = 0
+    while len(out) < n:
+        cand = pool[(20 + i) % len(pool)] if len(pool) > 20 else "q%d" % i
+        if cand not in out:
+            out.append(cand)
+        i += 1
+    return out
+
+
+def collide_dag(rng: random.Random, joiner: str):
+    """(n, edges, names): two different edges whose end-point names concatenate (with `joiner`) to the same
+    string: (a J b) > c  and  a > (b J c); plus a few random edges that keep the DAG weakly connected"""
+    a, b, c = rng.sample(["a", "b", "c", "x", "1", "ab", "0"], 3)
+    names = [a, a + joiner + b, b + joiner + c, c]
+    if len(set(names)) < 4:
+        names = ["p", "p" + joiner + "q", "q" + joiner + "r", "r"]
+    if len(set(names)) < 4:   # joiner == "" and unlucky tokens
+        names = ["p", "pq", "qr", "r"]
+    n = 4
+    edges = [(1, 3), (0, 2)]
+    extra = rng.choice([[(0, 1)], [(2, 3)], [(0, 3)], [(1, 2)], [(0, 1), (2, 3)]])
+    edges += extra
+    for _ in range(rng.randint(0, 2)):
+        names.append("z%d" % n)
+        edges.append((rng.randrange(n), n) if rng.random() < 0.5 else (n, rng.choice([2, 3])))
+        n += 1
+    if not is_acyclic(n, edges):
+        return collide_dag(rng, joiner)
+    rng.shuffle(edges)
+    perm = list(range(n))
+    rng.shuffle(perm)
+    edges = [(perm[x], perm[y]) for x, y in edges]
+    nm = [None] * n
+    for i, p in enumerate(perm):
+        nm[p] = names[i]
+    return n, edges, nm
+
+
 def make_names(rng: random.Random, n: int, scheme: str | None = None):
-    scheme = scheme or rng.choice(["n", "n", "letters", "hostile"])
+    scheme = scheme or rng.choice(["n", "n", "letters", "hostile", "concat"])
+    if scheme == "concat":
+        return concat_names(rng, n)
     if scheme == "n":
         return ["n%d" % i for i in range(n)]
     if scheme == "letters":
@@ -150,23 +210,155 @@ def random_attrs(rng: random.Random, n: int, density: float, private: bool = Fal
 
 
 # ------------------------------------------------------------------ real objects
+_HOOKED = {}
+
+
+def hooked_class():
+    """DAGNode subclass whose four assign hooks READ the graph (ancestors / descendants / siblings of the node and of
+    the nodes being attached; reading is allowed to hooks) and raise when armed ('pre' / 'post')."""
+    from bigtree import DAGNode
+    if "cls" in _HOOKED:
+        return _HOOKED["cls"]
+
+    class HDag(DAGNode):
+        ARM = None
+
+        def _peek(self, others):
+            for x in [self] + [o for o in others if isinstance(o, DAGNode)]:
+                list(x.ancestors), list(x.descendants), list(x.siblings)
+
+        def _DAGNode__pre_assign_parents(self, new_parents):
+            self._peek(new_parents)
+            if HDag.ARM == "pre":
+                raise RuntimeError("hook")
+
+        def _DAGNode__post_assign_parents(self, new_parents):
+            self._peek(new_parents)
+            if HDag.ARM == "post":
+                raise RuntimeError("hook")
+
+        def _DAGNode__pre_assign_children(self, new_children):
+            self._peek(new_children)
+            if HDag.ARM == "pre":
+                raise RuntimeError("hook")
+
+        def _DAGNode__post_assign_children(self, new_children):
+            self._peek(new_children)
+            if HDag.ARM == "post":
+                raise RuntimeError("hook")
+
+    _HOOKED["cls"] = HDag
+    return HDag
+
+
+def _add_edge(nodes, p, c, m):
+    if m == "P":
+        nodes[c].parents = [nodes[p]]
+    elif m == "C":
+        nodes[p].children = [nodes[c]]
+    elif m == "R":
+        nodes[p] >> nodes[c]
+    else:
+        nodes[c] << nodes[p]
+
+
+def _warm(nodes, v):
+    """read-only queries whose results are discarded (whatever the code remembers from them must not matter)"""
+    from bigtree import dag_iterator
+    x = nodes[v]
+    list(x.ancestors), list(x.descendants), list(x.siblings), list(dag_iterator(x))
+    for t in (nodes[0], nodes[-1]):
+        try:
+            x.go_to(t)
+        except Exception:
+            pass
+
+
+def _noise_step(nodes, step, cls):
+    kind = step[1]
+    if kind == "q":
+        _warm(nodes, step[2])
+    elif kind in ("cyc", "hookpre", "hookpost"):
+        a, b, m = step[2], step[3], step[4]
+        if kind != "cyc":
+            cls.ARM = kind[4:]
+        try:
+            _add_edge(nodes, a, b, m)
+        except Exception:
+            pass
+        finally:
+            if cls is not None:
+                cls.ARM = None
+    elif kind == "tmp":
+        a, b, m = step[2], step[3], step[4]
+        _add_edge(nodes, a, b, m)
+        _warm(nodes, b)
+        del nodes[a][nodes[b].node_name]
+        _warm(nodes, b)
+
+
 def build_real(d):
-    """build real DAGNode objects edge by edge through the public setters; returns nodes (by id)"""
+    """build real DAGNode objects edge by edge through the public setters; returns nodes (by id).
+    With d["noise"] (see add_noise) the final DAG is reached through a HISTORY: warm-up queries, refused
+    cycle-closing assignments, assignments rolled back because a (reading) user hook raises, and edges that are
+    added and deleted again are interleaved with the edge insertions; the final links are those of d["edges"]."""
     from bigtree import DAGNode
     attrs = d.get("attrs") or {}
-    nodes = [DAGNode(nm, **attrs.get(str(i), {})) for i, nm in enumerate(d["names"])]
+    noise = d.get("noise") or []
+    cls = hooked_class() if noise else DAGNode
+    nodes = [cls(nm, **attrs.get(str(i), {})) for i, nm in enumerate(d["names"])]
     modes = d.get("modes") or ""
     for k, (p, c) in enumerate(d["edges"]):
-        m = modes[k] if k < len(modes) else "P"
-        if m == "P":
-            nodes[c].parents = [nodes[p]]
-        elif m == "C":
-            nodes[p].children = [nodes[c]]
-        elif m == "R":
-            nodes[p] >> nodes[c]
-        else:
-            nodes[c] << nodes[p]
+        for st in noise:
+            if st[0] == k:
+                _noise_step(nodes, st, cls)
+        _add_edge(nodes, p, c, modes[k] if k < len(modes) else "P")
+    for st in noise:
+        if st[0] >= len(d["edges"]):
+            _noise_step(nodes, st, cls)
     return nodes
+
+
+def add_noise(rng: random.Random, n: int, edges, amount: int = 4):
+    """history steps [k, kind, …] to run before edge k is added (k == len(edges): after the last one); none of them
+    changes the final links: 'q' v (queries), 'cyc' a b m (a>b closes a cycle or is a self loop: refused),
+    'hookpre'/'hookpost' a b m (any new edge a>b, the user hook raises: rolled back), 'tmp' a b m (a valid edge
+    that is not part of the DAG is added, queried and deleted again)"""
+    edges = [tuple(e) for e in edges]
+    final = set(edges)
+    out = []
+    for _ in range(amount):
+        k = rng.randint(0, len(edges))
+        cur = edges[:k]
+        kind = rng.choice(["q", "cyc", "hookpre", "hookpost", "hookpost", "tmp", "tmp"])
+        m = rng.choice("PCRL")
+        if kind == "q":
+            out.append([k, "q", rng.randrange(n)])
+            continue
+        a, b = rng.randrange(n), rng.randrange(n)
+        if kind == "cyc":
+            # b must reach a (or a == b)
+            ch = {i: [c for p, c in cur if p == i] for i in range(n)}
+            reach, todo = {b}, [b]
+            while todo:
+                x = todo.pop()
+                for y in ch[x]:
+                    if y not in reach:
+                        reach.add(y)
+                        todo.append(y)
+            if a not in reach:
+                continue
+            out.append([k, "cyc", a, b, m])
+        elif kind.startswith("hook"):
+            if a == b or (a, b) in cur or not is_acyclic(n, cur + [(a, b)]):
+                continue
+            out.append([k, kind, a, b, m])
+        else:
+            if a == b or (a, b) in final or not is_acyclic(n, cur + [(a, b)]):
+                continue
+            out.append([k, "tmp", a, b, m])
+    out.sort(key=lambda st: st[0])
+    return out
 
 
 def real_edges(nodes, ids):
@@ -207,8 +399,14 @@ def multiset(s: str, sep: str):
 def shrink_dag(d):
     """smaller DAG candidates: drop one edge; drop the highest isolated node"""
     n, edges = d["n"], d["edges"]
+    noise = d.get("noise") or []
+    if noise:
+        yield dict(d, noise=[])
+        for k in range(len(noise)):
+            yield dict(d, noise=noise[:k] + noise[k + 1:])
     for k in range(len(edges)):
-        nd = dict(d, edges=edges[:k] + edges[k + 1:], modes=(d.get("modes") or "")[:k] + (d.get("modes") or "")[k + 1:])
+        # (history steps are only valid relative to the edge list they were generated for: dropped with the edge)
+        nd = dict(d, edges=edges[:k] + edges[k + 1:], modes=(d.get("modes") or "")[:k] + (d.get("modes") or "")[k + 1:], noise=[])
         yield nd
     used = {x for e in edges for x in e}
     last = n - 1
